@@ -24,6 +24,15 @@ fn verif_entry() {
     let rep = match part.as_str() {
         "c07" => crate::fsm::verif_fsm::run_c07(replay),
         "c08" => crate::fsm::verif_fsm::run_c08(replay),
+        "c01" => crate::event::verif_event::c01::run(replay),
+        "c05" => crate::event::verif_event::c05::run(replay),
+        "c09" => crate::event::verif_event::c09::run(replay),
+        "c10" => crate::event::verif_event::c10::run(replay),
+        "c11" => crate::event::verif_event::c11::run(replay),
+        "c16" => crate::event::verif_event::c16::run(replay),
+        "c18" => crate::event::verif_event::c18::run(replay),
+        "c20" => crate::event::verif_event::c20::run(replay),
+        "c13" => crate::rpki::verif_rpki::run_c13(replay),
         "" => {
             eprintln!("verif_entry: VERIF_PART not set; nothing to do");
             return;
